@@ -44,10 +44,10 @@ def _pred(fi):
 
 
 def run(rep):
-    predicate(rep)
-    iterative(rep)
-    fit(rep)
-    incremental(rep)
+    rep.run(predicate)
+    rep.run(iterative)
+    rep.run(fit)
+    rep.run(incremental)
 
 
 def predicate(rep):
